@@ -99,7 +99,7 @@ TZ_SETTINGS = [None, "EST5EDT,M3.2.0,M11.1.0", "CET-1CEST,M3.5.0,M10.5.0/3",
                "UTC", "WET0", "XYZ0", "GMT0"]
 
 OFF_NAMES = ["A", "B", None]
-OFFSETS = [0, 3600, -18000, 19800, 1, -86399]
+OFFSETS = [0, 3600, -18000, 19800, 1, -86399, 1172.5, -0.000001]
 
 
 def zone_number(name):
